@@ -7,7 +7,7 @@
               Color = enum(red, green)
      urn:app: Circle{x: Unicode}                                                (unrelated, same NAME as tns:Circle)
      f(shape: Shape, n: Integer, s: Unicode, d: Date, col: Color, xs: Array(Integer), ps: Array(Person), p: Person,
-       fl: Double, b: Boolean, cs: Array(Circle), ss: Array(Shape)) -> Integer
+       fl: Double, b: Boolean, cs: Array(Circle), ss: Array(Shape), aa: Array(Array(Unicode))) -> Integer
      g(c: {urn:app}Circle) -> Integer
    A valid request for f is mutated at ONE position by one type-directed operator; the
    server is the same for all mutants of a run (so consecutive requests can interfere).
@@ -41,7 +41,8 @@ Family(ns, name) == IF ns = Tns /\ name = "Shape" THEN {<<Tns, "Shape">>, <<Tns,
 Args == << <<"shape", Cls(Tns, "Shape")>>, <<"n", Prim("Integer")>>, <<"s", Prim("Unicode")>>, <<"d", Prim("Date")>>, <<"col", Enum>>,
            <<"xs", ArrOf(Prim("Integer"))>>, <<"ps", ArrOf(Cls(Tns, "Person"))>>, <<"p", Cls(Tns, "Person")>>,
            <<"fl", Prim("Double")>>, <<"b", Prim("Boolean")>>,
-           <<"cs", ArrOf(Cls(Tns, "Circle"))>>, <<"ss", ArrOf(Cls(Tns, "Shape"))>> >>
+           <<"cs", ArrOf(Cls(Tns, "Circle"))>>, <<"ss", ArrOf(Cls(Tns, "Shape"))>>,
+           <<"aa", ArrOf(ArrOf(Prim("Unicode")))>> >>
 \* the SOAP request header of the service (delivered to user code as ctx.in_header)
 Header == Cls(Tns, "Session")
 
@@ -55,7 +56,10 @@ Positions == { [path |-> <<"shape">>, t |-> Cls(Tns, "Shape")], [path |-> <<"sha
                [path |-> <<"fl">>, t |-> Prim("Double")], [path |-> <<"b">>, t |-> Prim("Boolean")],
                \* an array of a DERIVED class next to an array of its base: the array of the base is not a substitute for it
                [path |-> <<"cs">>, t |-> ArrOf(Cls(Tns, "Circle"))], [path |-> <<"cs", "0">>, t |-> Cls(Tns, "Circle")],
-               [path |-> <<"ss">>, t |-> ArrOf(Cls(Tns, "Shape"))] }
+               [path |-> <<"ss">>, t |-> ArrOf(Cls(Tns, "Shape"))],
+               \* an array directly inside an array: the declared types hold at every depth
+               [path |-> <<"aa">>, t |-> ArrOf(ArrOf(Prim("Unicode")))], [path |-> <<"aa", "0">>, t |-> ArrOf(Prim("Unicode"))],
+               [path |-> <<"aa", "0", "0">>, t |-> Prim("Unicode")] }
 \* positions inside the SOAP header (XML family, SOAP protocols only)
 HeaderPositions == { [path |-> <<"@hdr">>, t |-> Header], [path |-> <<"@hdr", "token">>, t |-> Prim("Unicode")],
                      [path |-> <<"@hdr", "n">>, t |-> Prim("Integer")], [path |-> <<"@hdr", "d">>, t |-> Prim("Date")] }
